@@ -96,7 +96,7 @@ def compare_group(impl, ref, mech_prefix):
     return (None, None, s)
 
 
-def judge_case(case, rec, log, start_factor=None):
+def judge_case(case, rec, log, start_factor=None, reuse=False):
     """Build the scheme, run a short optimisation, compare every observed evaluation."""
     from glotaran.optimization.optimize import optimize
 
@@ -119,6 +119,10 @@ def judge_case(case, rec, log, start_factor=None):
         scheme = S.build_scheme(c, maximum_number_function_evaluations=2)
         with time_limit(30):
             optimize(scheme, verbose=False, raise_exception=True)
+            if reuse:
+                # the SAME Scheme object again: what the first run did to the caller's data / parameters must not show
+                optimize(scheme, verbose=False, raise_exception=True)
+                rec.count("schemes_optimised_twice")
     except (Exception, CaseTimeout) as e:  # noqa
         import traceback
 
@@ -314,9 +318,9 @@ def run_shard(spec, rec):
     rng = rng_for(spec)
     S.model_class()
     for i in range(spec["n"]):
-        case = fix_groups(S.gen_case(rng))
+        case = fix_groups(S.gen_case(rng, layouts=("mg", "gm", "mg_f", "gm_f")))
         jc = S.jsonable_case(case)
-        ok = judge_case(jc, rec, log)
+        ok = judge_case(jc, rec, log, reuse=bool(i % 2))
         if ok and rng.integers(2):
             far = {l: float(rng.uniform(0.4, 2.5)) for l in O.free_labels(jc)}
             judge_case(jc, rec, log, start_factor=far)
